@@ -84,7 +84,7 @@ func init() {
 				ozs = alpha.Zall
 			}
 			return []engine.Phase{
-				{Name: "voxel-to-bits", ShardDepth: 2, Bounds: engine.Bounds{InputDev: -1},
+				{Name: "voxel-to-bits", Serial: true, Bounds: engine.Bounds{InputDev: -1},
 					Rule: "full product v x f in VIdx(v) u cells around each range end x output zoom x range: the vertical IDs are exactly the contiguous run [idx(bottom), idx(top)] of the exact subdivision, within 0..2^z-1 (clamped); spatial-ID API agrees when h = v; non-trivial = distinct cases whose run has >= 2 cells or is clamped",
 					Body: func(c *engine.Ctx) {
 						v := vzs[c.In("v", len(vzs))]
@@ -160,7 +160,7 @@ func init() {
 							c.Violation("C17:voxel-to-bits:run-differs-from-exact-subdivision", d)
 						}
 					}},
-				{Name: "bits-to-voxels", ShardDepth: 2, Bounds: engine.Bounds{InputDev: -1},
+				{Name: "bits-to-voxels", Serial: true, Bounds: engine.Bounds{InputDev: -1},
 					Rule: "full product bit zoom (0..6: all cells; above: edge cells) x cell x output vertical zoom x range: the returned vertical indices form a contiguous run covering the cell's altitude interval and not exceeding it by more than one index; non-trivial = distinct cases whose run has >= 2 indices",
 					Body: func(c *engine.Ctx) {
 						bzs := []int64{0, 1, 2, 3, 4, 5, 6, 12, 20}
